@@ -3,6 +3,7 @@ C14 — Observe registry: one observer per endpoint per resource, removed only
 on match.  Model: Model/Observe.lean; every statement is for all histories
 (induction over the operation list) or for every reachable (`Inv`) state.
 -/
+import CoapLite.Lemmas.Shape.Api
 import CoapLite.Lemmas.Observe
 import CoapLite.Lemmas.ObserveRefine
 import CoapLite.Lemmas.Shape.Observe
@@ -116,5 +117,12 @@ theorem state_shape_matches_source :
     Shapes.resource = [("observers", "Vec<Observer<Endpoint>>"), ("sequence", "u32")] ∧
     Shapes.subject = [("phantom", "PhantomData<Endpoint>"), ("resources", "BTreeMap<ResourcePath,Resource<Endpoint>>"), ("unacknowledged_limit", "u8")] :=
   ⟨ShapeTie.no_global_state, ShapeTie.observer, ShapeTie.resource, ShapeTie.subject⟩
+
+/-- the public entry points of the modelled source files – re-read from /repo/src on every run – are
+exactly the ones the model was written against (`Lemmas/Shape/Api.lean`): a new public way to change the
+state this property is about, or a receiver that became `&mut self`, breaks this theorem -/
+theorem api_surface_matches_source :
+    Shapes.apiObserve = ShapeTie.expectedApiObserve :=
+  ShapeTie.apiObserve
 
 end CoapLite.C14
